@@ -5,7 +5,7 @@ Extraction Language OCaml.
 Definition keepN : N := N.add 0 0.
 Definition keepZ : Z := Z.add 0 0.
 Extraction "model_c02.ml" keepN keepZ enc dec wfv wfs hex unhex refined writer_form reward_sort_key is_empty_val
-  item_wf parse_exact first_item_wf input_depth accepts judge has_huge consumed wit_array_first wit_empty_enc
+  item_wf parse_exact first_item_wf input_depth accepts shallow judge has_huge consumed wit_array_first wit_empty_enc
   address_from_bytes addr_from_bytes addr_to_bytes addr_unsafe addr_deserialize byron_from_bytes ext_addr_enc ext_addr_dec
   third_element legacy_output real_alloc read_bounded_bytes write_bounded_bytes from_hex_with hash_from_bytes from_base32 hash_from_bech32
   from_128_xprv write_nint int_to_bytes int_cbor json_number_to_int emip3_split wit_special native_script_schema crc32 bstr
